@@ -118,15 +118,14 @@ func JsonContainerReader(container map[string]interface{}) node.Node {
 		// part of the meta, that disqualifies that case and we move onto next case
 		// until one case aligns with data.  If no cases align then input in inconclusive
 		// i.e. non-discriminating and we should error out.
-		for _, kase := range choice.Cases() {
-			for _, prop := range kase.DataDefinitions() {
-				if _, found := fqkGet(prop, container); found {
-					return kase, nil
-				}
-				// just because you didn't find a property doesnt
-				// mean it's invalid, it's only if you don't find any
-				// of the properties of a case
-			}
+		if kase := chooseCase(choice, func(prop meta.Definition) bool {
+			_, found := fqkGet(prop, container)
+			// just because you didn't find a property doesnt
+			// mean it's invalid, it's only if you don't find any
+			// of the properties of a case
+			return found
+		}); kase != nil {
+			return kase, nil
 		}
 		// just because you didn't find any properties of any cases doesn't
 		// mean it's invalid, just that *none* of the cases are there.
@@ -178,4 +177,28 @@ func jsonKeyMatches(keyFields []meta.Leafable, candidate map[string]interface{},
 		}
 	}
 	return true
+}
+
+// chooseCase finds the case that has data according to found, also when the data
+// sits in a choice nested inside the case. Cases are visited in a fixed order.
+func chooseCase(choice *meta.Choice, found func(meta.Definition) bool) *meta.ChoiceCase {
+	for _, id := range choice.CaseIdents() {
+		if kase := choice.Cases()[id]; caseHasData(kase, found) {
+			return kase
+		}
+	}
+	return nil
+}
+
+func caseHasData(kase *meta.ChoiceCase, found func(meta.Definition) bool) bool {
+	for _, ddef := range kase.DataDefinitions() {
+		if nested, isChoice := ddef.(*meta.Choice); isChoice {
+			if chooseCase(nested, found) != nil {
+				return true
+			}
+		} else if found(ddef) {
+			return true
+		}
+	}
+	return false
 }
